@@ -123,6 +123,17 @@ def check(case):
             raise Violation("copy_not_on_global_generator", "np.random.seed(%d) then a deep copy of the callable: draws differ from those "
                             "of the original after the same seeding; %s" % (case["seed"], ctx))
         lab.append("deepcopy")
+    # other ways a callable gets duplicated: a shallow copy, a pickle round trip (skipped when the object cannot be pickled)
+    import pickle
+    for how, mk in (("copy.copy", lambda: copy.copy(fac)), ("pickle round trip", lambda: pickle.loads(pickle.dumps(fac)))):
+        dup = lib(mk)
+        if dup.ok and callable(dup.value):
+            np.random.seed(case["seed"])
+            via = np.asarray(must(lib(dup.value, n), "draw from a %s of the callable" % how))
+            if not np.array_equal(first, via):
+                raise Violation("copy_changes_law", "np.random.seed(%d) then a %s of the callable: draws differ from those of the "
+                                "original after the same seeding; %s" % (case["seed"], how, ctx))
+            lab.append("dup_" + how.split()[0])
     if k == "zero":
         import sempler.noise as noise
         fresh = np.asarray(must(lib(noise.zero(), n), "zero() from a fresh factory"))
